@@ -167,7 +167,7 @@ def make_filter(ssj, fspec, tok):
     if kind == 'OverlapFilter':
         return cls(tok, fspec.get('overlap_size', 1), fspec.get('comp_op', '>='),
                    fspec.get('allow_missing', False))
-    return cls(tok, fspec['measure'], fspec['threshold'],
+    return cls(tok, fspec.get('measure_spelling') or fspec['measure'], fspec['threshold'],
                fspec.get('allow_empty', True), fspec.get('allow_missing', False))
 
 
